@@ -563,7 +563,7 @@ fn examine(
             return;
         }
     };
-    for m in judge(ob, cut, &rec, opts.now).into_iter().chain(structural(cfg, &rec, opts.now)) {
+    for m in judge(ob, cut, &rec, opts.now).into_iter().chain(structural(cfg, &rec, opts.now)).chain(newest_wins(cfg, img, &rec, opts.now)) {
         out.push(Finding { msg: m, desc: desc.to_string() });
     }
     if let Some(r0) = reference {
@@ -799,6 +799,61 @@ pub fn structural_live(cfg: &Cfg, d: &feoxdb::verif::StoreDump) -> Vec<String> {
     let blocks: u64 = owned.iter().map(|o| o.1).sum();
     if d.disk_usage != blocks * BLOCK as u64 {
         v.push(format!("C05: disk usage counter {} but live extents total {}", d.disk_usage, blocks * BLOCK as u64));
+    }
+    v
+}
+
+/// Independent reading of the image (documented format, newest timestamp wins, extents
+/// of an active journal entry ignored): the recovered store must expose exactly that,
+/// minus generations expired at recovery time — in particular, when the newest
+/// generation of a key has expired, no older generation may reappear.
+pub fn newest_wins(cfg: &Cfg, img: &[u8], rec: &Recovered, now: u64) -> Vec<String> {
+    let mut v = Vec::new();
+    let dec = crate::layoutref::decode(img);
+    if dec.meta.is_none() || dec.journal_error {
+        return v;
+    }
+    // a block that looks like a record head but does not parse makes the reading ambiguous
+    if dec.items.iter().any(|i| matches!(i, crate::layoutref::Item::BadHead { .. } | crate::layoutref::Item::LegacyMarker { .. })) {
+        return v;
+    }
+    if cfg.format < 3 {
+        // without tokens a torn multi-block record is indistinguishable from a complete one
+        return v;
+    }
+    let live = dec.live();
+    for (k, l) in &live {
+        let expired = cfg.ttl && l.rec.expiry > 0 && now > l.rec.expiry;
+        match rec.keys.get(k) {
+            None if expired => {}
+            None => v.push(format!(
+                "C03: key {} has a complete, committed record (ts {}) in the image but the recovered store does not expose it",
+                show(k),
+                l.rec.timestamp
+            )),
+            Some(r) if expired => v.push(format!(
+                "C11: the newest generation of key {} on the device (ts {}, expiry {}) has expired, yet recovery exposes generation ts {} (an older generation reappeared)",
+                show(k),
+                l.rec.timestamp,
+                l.rec.expiry,
+                r.ts
+            )),
+            Some(r) => {
+                if r.ts != l.rec.timestamp || r.value.as_ref().ok() != Some(&l.rec.value) || r.expiry != l.rec.expiry {
+                    v.push(format!(
+                        "C03: recovery exposes key {} with ts {} but the newest complete record in the image has ts {}",
+                        show(k),
+                        r.ts,
+                        l.rec.timestamp
+                    ));
+                }
+            }
+        }
+    }
+    for k in rec.keys.keys() {
+        if !live.contains_key(k) {
+            v.push(format!("C03: recovery exposes key {} although the image holds no complete committed record of it", show(k)));
+        }
     }
     v
 }
